@@ -174,6 +174,7 @@ def valueOrd (st : RState) (e i : Nat) : Option Nat :=
   idx[i]?
 
 def parseRef (st : RState) (r : String) : Ref :=
+  if r == "W0" then .wave false else if r == "W1" then .wave true else
   match natAfter 'G' r, natAfter 'F' r, natAfter 'L' r, natAfter 'S' r, natAfter 'E' r with
   | some k, _, _, _, _ => .glob k
   | _, some k, _, _, _ => .func k
@@ -330,6 +331,7 @@ def witness? : String → Option Program
   | "pMethods" => some RsslVerif.Lemmas.NamesEmitWitness.pMethods
   | "pMemberMethod" => some RsslVerif.Lemmas.NamesEmitWitness.pMemberMethod
   | "pGood" => some RsslVerif.Lemmas.NamesEmitWitness.pGood
+  | "pWave" => some RsslVerif.Lemmas.NamesEmitWitness.pWave
   | _ => none
 
 end Res
